@@ -391,6 +391,15 @@ func GenC09(rng *rand.Rand, thorough bool, emit func(*Sx)) {
 						}
 						f := newF(cfg)
 						f.hello()
+						// some exchanges come after three protocol errors: a failed, malformed or cancelled
+						// exchange is not a protocol error and must leave the connection in command mode
+						nbad := 0
+						if n%3 == 0 {
+							nbad = 3
+							f.cmd("XXXX", 500)
+							f.cmd("X", 501)
+							f.cmd("", 500)
+						}
 						f.script.Auth = []AuthPlan{{Start: BNil, Steps: steps}}
 						line := "AUTH XSTEPS"
 						if ini.line != "" {
@@ -442,6 +451,7 @@ func GenC09(rng *rand.Rand, thorough bool, emit func(*Sx)) {
 							}
 						}
 						// the connection is in command mode again, authenticated iff the exchange succeeded
+						_ = nbad
 						f.cmd("NOOP", 250)
 						if authed {
 							f.cmd("AUTH PLAIN", 503)
